@@ -82,4 +82,4 @@ impl EventSource for SocketWrite<'_> {
 
 #[cfg(kani)]
 #[path = "/verif/harness/may/io_sys_unix_net_socket_write.rs"]
-mod verif_kani;
+pub(crate) mod verif_kani;
